@@ -27,6 +27,7 @@ type ContainerSpec struct {
 	Notifier       int      `json:"notifier,omitempty"` // 0 none, 1 unbuffered, 2 buffered
 	UserWG         bool     `json:"user_wg,omitempty"`  // WithWaitGroup
 	NoReadNotifier bool     `json:"no_read_notifier,omitempty"`
+	Anon           bool     `json:"anon,omitempty"` // anonymous bars: every bar's marker says "B0" (bars in the same state look byte for byte alike); the log still knows who is who
 }
 
 // Resize changes the simulated terminal's size from the k-th size query on.
